@@ -2,6 +2,8 @@ package wm
 
 import (
 	"fmt"
+	"sort"
+	"strings"
 
 	"golang.org/x/tools/go/ssa"
 )
@@ -319,5 +321,25 @@ func c05NoLockAcrossWait(c *Check, P string, r *GCRoles) {
 		_, has := held[r.idSubs]
 		c.Report(!has, P+".O4", "NO-LOCK-ACROSS-WAIT", W, si.Sel.Pos(), fmt.Sprintf("blocking-publish wait helper: select#%d waiting for subscriber acks", i),
 			"the wait for subscribers' acks must not happen while the subscribers lock is held (a subscriber that publishes to another topic while a Subscribe is pending deadlocks on RWMutex writer preference)", "held: "+held.String())
+	}
+	c.RoleKeys = false
+	// the wait's other exit is the Pub/Sub's closing signal: Close must be able to raise it while a Publish waits
+	sig := CloseSites(r.Close, func(v ssa.Value) bool { return AllOrigins(v, IsFieldLoad(r.Closing)) })
+	c.Floor(P+".O4", "close(closing signal) in GoChannel.Close", len(sig), 1)
+	for i, si := range r.waitSelects() {
+		held := r.LA.Held(si.Sel)
+		for _, s := range sig {
+			need := r.LA.Held(s)
+			var clash []string
+			for id, m := range need {
+				if m2, has := held[id]; has && (m == 'W' || m2 == 'W') {
+					clash = append(clash, id)
+				}
+			}
+			sort.Strings(clash)
+			c.Report(len(clash) == 0, P+".O4", "CLOSE-CAN-RELEASE-WAIT", W, si.Sel.Pos(), fmt.Sprintf("blocking-publish wait: select#%d vs close(closing signal)", i),
+				"no lock that Close holds when it raises the closing signal is held by the waiting Publish (otherwise Close cannot release a blocked Publish: 'or the Pub/Sub was closed')",
+				"held at the wait: "+held.String()+"; held at close(closing): "+need.String()+"; clash: "+strings.Join(clash, ","))
+		}
 	}
 }
